@@ -143,6 +143,7 @@ type caseSpec struct {
 	latency       time.Duration // of the honest seed
 	repeatUnchoke bool          // the seed answers every Interested with Unchoke, not only the first
 	end           string        // close | kill-blocked | cancel-blocked
+	liar          bool          // a third peer sends don't-have for every piece without ever having had any
 	huge          bool          // g.PieceSize and g.Length describe a torrent too large to materialise (sim.BuildHuge)
 }
 
@@ -214,6 +215,7 @@ func genCase(rt *rapid.T) caseSpec {
 	c.corrupt = rapid.SampledFrom([]int{0, 0, 1, 3}).Draw(rt, "corruptBlocks")
 	c.fast = rapid.Bool().Draw(rt, "fast")
 	c.repeatUnchoke = rapid.IntRange(0, 3).Draw(rt, "repeatUnchoke") == 0
+	c.liar = rapid.IntRange(0, 3).Draw(rt, "liar") == 0
 	c.latency = rapid.SampledFrom([]time.Duration{0, 0, 5 * time.Millisecond, 80 * time.Millisecond, 400 * time.Millisecond}).Draw(rt, "seedLatency")
 	ns := rapid.IntRange(1, 25).Draw(rt, "nsteps")
 	for i := 0; i < ns; i++ {
@@ -339,6 +341,22 @@ func runCase(c caseSpec) (fail string, labels map[string]bool) {
 	}
 	seed(x, r, 0, &served, c.latency)
 	closeAll := func() {}
+	if c.liar && !c.huge {
+		// a peer that has nothing and says so about every piece, one by one -
+		// pieces it never announced: that must not take anything away from what
+		// the honest seed contributes
+		r3, err := x.Connect(sim.Caps{Fast: true, Extended: true}, 3, false)
+		if err != nil {
+			return "connect: " + err.Error(), labels
+		}
+		r3.SendExt(nil, nil, nil, "")
+		r3.Send(ref.Msg{Kind: ref.KHaveNone})
+		for k := 0; k < x.N; k++ {
+			r3.Send(ref.Msg{Kind: ref.KExtended, Sub: 3, X: ref.XDontHave, Index: uint32(k)})
+		}
+		sim.Settle()
+		labels["peer-disowns-pieces-it-never-had"] = true
+	}
 	if c.corrupt > 0 {
 		// a second peer whose first blocks are wrong (storrent may ban it; the
 		// honest seed stays)
